@@ -33,7 +33,7 @@ REQUIRED_CLASSES = (['cfg-' + c for c in CONFIGS] + ['fail-' + k for k in FAIL_K
                     ['cfg-%s:fail-atom-ctor' % c for c in CONFIGS])
 REQUIRED_MONITORS = ['differential_compares', 'step_guarded_calls', 'fresh_instances']
 ASSUMPTIONS = ['outcome of a solve = value (rtol 1e-12, equal truthiness; strings / unit atoms exactly) or (exception type, repr(args))',
-               'the fresh instance is built with the same atom type, operator table and step list objects',
+               'every instance (reused, fresh, pre-loaded twin) is built with the same atom type and its own copy of the operator table and step list',
                'the fault driver (atom constructor raising on its n-th call) is re-armed identically before each of the compared calls',
                'token buffers are inspected for diagnosis / classification of the known defect only']
 EXHAUSTIVE_SUBSPACES = {'quick': [], 'thorough': []}
@@ -123,17 +123,22 @@ def setup():
         fault.tick(string)
         return unit_solver.AtomParser(string)
 
+    def conf(atom, ops, steps=None):
+        # every instance gets its own copies of the operator table and step list, so state leaking through
+        # a mutated configuration object is visible to the differential as well
+        return lambda: S.ExpressionSolver(atom, dict(ops), copy.deepcopy(steps))
+
     cfgs = {
         'default': lambda: S.ExpressionSolver(FaultAtom),
-        'string-atom': (lambda ops, steps: (lambda: S.ExpressionSolver(AtomCustom, ops, steps)))(
+        'string-atom': conf(AtomCustom, 
             {'add': S.OperatorAdd, 'gt': S.OperatorGt, 'par': S.OperatorPar},
             [dict(operators=['par'], otype=Otype.ARGS), dict(operators=['add'], otype=Otype.BINARY), dict(operators=['gt'], otype=Otype.BINARY)]),
-        'custom-operators': (lambda ops, steps: (lambda: S.ExpressionSolver(FaultAtom, ops, steps)))(
+        'custom-operators': conf(FaultAtom, 
             {'square': OperatorSquare, 'cube': OperatorCube, 'add': S.OperatorAdd},
             [dict(operators=['square', 'cube'], otype=Otype.UNARY), dict(operators=['add'], otype=Otype.BINARY)]),
-        'unit-parser': (lambda ops: (lambda: S.ExpressionSolver(UnitAtom, ops)))(
+        'unit-parser': conf(UnitAtom, 
             {'par': S.OperatorPar, 'mul': S.OperatorMul, 'truediv': S.OperatorTruediv}),
-        'subset-custom-order': (lambda ops, steps: (lambda: S.ExpressionSolver(FaultAtom, ops, steps)))(
+        'subset-custom-order': conf(FaultAtom, 
             {'par': S.OperatorPar, 'pow': S.OperatorPow, 'mul': S.OperatorMul, 'truediv': S.OperatorTruediv,
              'add': S.OperatorAdd, 'sub': S.OperatorSub},
             [dict(operators=['par'], otype=Otype.ARGS), dict(operators=['add', 'sub'], otype=Otype.UNARY),
